@@ -1,6 +1,7 @@
 import HdVerif.Model.Basic
 import HdVerif.Generated.T13s
 import HdVerif.Generated.T13se
+import HdVerif.Generated.T14
 /-! # Model of the SR content items of `highdicom.sr.value_types` (property C13)
 
 An item is what the library makes of it: a class (one of the 15 `*ContentItem`s), the attributes the
@@ -168,6 +169,29 @@ def checkDataset (attrs : Attrs) (isRoot isSr : Bool) : Except ErrKind Unit :=
       | .ok _ => .ok ()
   | some _ => .error .value
 
+/-- `RelationshipTypeValues(i.RelationshipType)` succeeds (or there is no relationship type) -/
+def relValid (a : Attrs) : Bool :=
+  match a.lookup "RelationshipType" with
+  | none => true
+  | some (.str r) => enumHas Gen.srRelationshipTypes r
+  | some _ => false
+
+/-- the guards `ContentSequence.__init__` applies to one item (decision tree regenerated for C14, `Gen.csCtorCheck`);
+every branch evaluates `i.relationship_type`, i.e. `RelationshipTypeValues(i.RelationshipType)` — ValueError for a
+value outside the enumeration -/
+def ctorItem (isRoot isSr : Bool) (it : Item) : Except ErrKind Unit :=
+  if !relValid it.attrs then .error .value
+  else match Gen.csCtorCheck isRoot isSr true (has "RelationshipType" it.attrs) (it.cls == .container) with
+    | .error e => .error e
+    | .ok _ => .ok ()
+
+/-- `ContentSequence(items, is_root, is_sr)`: the guards, item by item -/
+def ctorAll (isRoot isSr : Bool) : List Item → Except ErrKind Unit
+  | [] => .ok ()
+  | i :: r => match ctorItem isRoot isSr i with
+    | .error e => .error e
+    | .ok _ => ctorAll isRoot isSr r
+
 mutual
 /-- `ContentItem._from_dataset_derived(dataset)` -/
 def parse : DS → Except ErrKind Item
@@ -180,8 +204,13 @@ def parse : DS → Except ErrKind Item
       | some l =>
         match parseList l with
         | .error e => .error e
-        | .ok ch => .ok (.mk cls attrs' (some ch))
-/-- `ContentSequence.from_sequence(datasets)` with the defaults `is_root=False, is_sr=True` -/
+        | .ok ch =>
+          -- `from_sequence` ends in `ContentSequence(content_items, is_root=False, is_sr=True)`
+          match ctorAll false true ch with
+          | .error e => .error e
+          | .ok _ => .ok (.mk cls attrs' (some ch))
+/-- the loop of `ContentSequence.from_sequence` (defaults `is_root=False, is_sr=True`): check, then parse, data set
+by data set; the constructor guards over all parsed items follow in the caller -/
 def parseList : List DS → Except ErrKind (List Item)
   | [] => .ok []
   | d :: r =>
@@ -207,13 +236,23 @@ def parseAs (cls : Cls) : DS → Except ErrKind Item
       | some l =>
         match parseList l with
         | .error e => .error e
-        | .ok ch => .ok (.mk cls attrs' (some ch))
+        | .ok ch =>
+          match ctorAll false true ch with
+          | .error e => .error e
+          | .ok _ => .ok (.mk cls attrs' (some ch))
 
-/-- `ContentSequence.from_sequence([dataset], is_root, is_sr)[0]` -/
+/-- `ContentSequence.from_sequence([dataset], is_root, is_sr)[0]`: `_check_dataset`, parse, then the guards of
+`ContentSequence(content_items, is_root, is_sr)` -/
 def parseTop (d : DS) (isRoot isSr : Bool) : Except ErrKind Item :=
   match checkDataset d.attrs isRoot isSr with
   | .error e => .error e
-  | .ok _ => parse d
+  | .ok _ =>
+    match parse d with
+    | .error e => .error e
+    | .ok it =>
+      match ctorItem isRoot isSr it with
+      | .error e => .error e
+      | .ok _ => .ok it
 
 /-! ## well-formed items (what the constructors produce) -/
 
@@ -226,7 +265,7 @@ def wf : Item → Bool
       | some l => wfList l)
 def wfList : List Item → Bool
   | [] => true
-  | i :: r => (checkDataset i.attrs false true == .ok ()) && wf i && wfList r
+  | i :: r => (checkDataset i.attrs false true == .ok ()) && (ctorItem false true i == .ok ()) && wf i && wfList r
 end
 
 /-! ## constructors -/
@@ -291,6 +330,7 @@ def mkWaveform (name : Coded) (cls inst : String) (channels : Option (List (Int 
 structure Points where
   d : Nat
   rows : List (List Rat)
+  ndim : Nat := 2          -- number of array dimensions; `d` and `rows` describe the array when it is 2
   deriving DecidableEq, Repr
 
 def Points.rect (p : Points) : Bool := p.rows.all (fun r => r.length == p.d)
@@ -300,8 +340,9 @@ def optAttr (k : String) (v : Option String) : Attrs :=
   | none => []
   | some s => [(k, .str s)]
 
-/-- `ScoordContentItem.__init__` -/
-def mkScoord (name : Coded) (gt : String) (p : Points) (origin fiducial : Option String) (rel : Option String) :
+/-- `ScoordContentItem.__init__`; `fl` = the cast to the 32-bit floats of value representation FL
+(`graphic_data.astype(np.float32)`) -/
+def mkScoord (fl : Rat → Rat) (name : Coded) (gt : String) (p : Points) (origin fiducial : Option String) (rel : Option String) :
     Except ErrKind Item :=
   match base .scoord name rel with
   | .error e => .error e
@@ -309,16 +350,19 @@ def mkScoord (name : Coded) (gt : String) (p : Points) (origin fiducial : Option
     match enumName Gen.srGraphicTypes gt with
     | none => .error .value
     | some gtName =>
+      match Gen.scoordAxesCheck p.ndim with
+      | .error e => .error e
+      | .ok _ =>
       match Gen.scoordCheck gtName p.rows.length p.d with
       | .error e => .error e
       | .ok _ =>
         match origin with
         | some o => if enumHas Gen.srPixelOrigins o then
-            .ok (.mk .scoord (a ++ [("GraphicType", .str gt), ("GraphicData", .rats p.rows.flatten),
+            .ok (.mk .scoord (a ++ [("GraphicType", .str gt), ("GraphicData", .rats (p.rows.flatten.map fl)),
                                      ("PixelOriginInterpretation", .str o)] ++ optAttr "FiducialUID" fiducial) none)
           else .error .value
         | none =>
-          .ok (.mk .scoord (a ++ [("GraphicType", .str gt), ("GraphicData", .rats p.rows.flatten)]
+          .ok (.mk .scoord (a ++ [("GraphicType", .str gt), ("GraphicData", .rats (p.rows.flatten.map fl))]
                               ++ optAttr "FiducialUID" fiducial) none)
 
 def sub3 (a b : List Rat) : List Rat := List.zipWith (· - ·) a b
@@ -343,8 +387,8 @@ def firstEqLast (rows : List (List Rat)) : Bool :=
   | some a, some b => a == b
   | _, _ => false
 
-/-- `Scoord3DContentItem.__init__` -/
-def mkScoord3d (name : Coded) (gt : String) (p : Points) (frameOfRef : String) (fiducial : Option String)
+/-- `Scoord3DContentItem.__init__` (the checks see the array as given, the stored values are cast by `fl`) -/
+def mkScoord3d (fl : Rat → Rat) (name : Coded) (gt : String) (p : Points) (frameOfRef : String) (fiducial : Option String)
     (rel : Option String) : Except ErrKind Item :=
   match base .scoord3d name rel with
   | .error e => .error e
@@ -352,10 +396,13 @@ def mkScoord3d (name : Coded) (gt : String) (p : Points) (frameOfRef : String) (
     match enumName Gen.srGraphicTypes3D gt with
     | none => .error .value
     | some gtName =>
+      match Gen.scoord3dAxesCheck p.ndim with
+      | .error e => .error e
+      | .ok _ =>
       match Gen.scoord3dCheck gtName p.rows.length p.d (firstEqLast p.rows) (coplanar p.rows) with
       | .error e => .error e
       | .ok _ =>
-        .ok (.mk .scoord3d (a ++ [("GraphicType", .str gt), ("GraphicData", .rats p.rows.flatten),
+        .ok (.mk .scoord3d (a ++ [("GraphicType", .str gt), ("GraphicData", .rats (p.rows.flatten.map fl)),
                                   ("ReferencedFrameOfReferenceUID", .str frameOfRef)] ++ optAttr "FiducialUID" fiducial) none)
 
 /-- the three alternative arguments of `TcoordContentItem` -/
@@ -381,8 +428,9 @@ def mkTcoord (ds : Rat → Rat) (name : Coded) (rangeType : String) (arg : Optio
 /-- `item.ContentSequence = children` (→ `ContentSequence(children)`: non-root SR, every child needs a
 relationship type) -/
 def setContent (it : Item) (children : List Item) : Except ErrKind Item :=
-  if children.all (fun c => has "RelationshipType" c.attrs) then .ok (.mk it.cls it.attrs (some children))
-  else .error .attribute
+  match ctorAll false true children with
+  | .error e => .error e
+  | .ok _ => .ok (.mk it.cls it.attrs (some children))
 
 /-! ## accessors -/
 
